@@ -14,5 +14,6 @@ Extraction "model.ml"
   Serial.serialize Serial.deserialize Serial.overlay
   PolyP.step PolyP.spec_step PolyP.abs PolyP.init PolyP.hs
   RandBytes.randombytes RandBytes.calls
+  Prng.run_hist Prng.g0 Prng.g_seedings Salsa.stream
   Params.rows16 Params.rows32 Params.rows64 Shards.K16 Shards.K32 Shards.K64
   Z.modulo Z.div Z.mul Z.add Z.sub Z.pow.
